@@ -244,3 +244,94 @@ pub fn random_heavy(rng: &mut Rng64) -> Pos {
         }
     }
 }
+
+
+/// Random endgame with pawns: a strong side (to move) with heavy pieces and pawns against a
+/// king that may have a pawn or a knight. Short mates by pawn moves and captures occur here.
+pub fn random_pawn_endgame(rng: &mut Rng64) -> Pos {
+    loop {
+        let strong_white = rng.chance(500);
+        let (c, o) = if strong_white { (0, BLACK_BIT) } else { (BLACK_BIT, 0) };
+        let sets: [&[u8]; 6] = [&[QUEEN, PAWN], &[ROOK, ROOK, PAWN], &[QUEEN, PAWN, PAWN], &[QUEEN, ROOK], &[ROOK, KNIGHT, PAWN, PAWN], &[QUEEN, KNIGHT, PAWN]];
+        let weak: [&[u8]; 4] = [&[], &[PAWN], &[KNIGHT], &[PAWN, PAWN]];
+        let mut pieces = vec![KING, KING | BLACK_BIT];
+        for &k in *rng.pick(&sets) {
+            pieces.push(k | c);
+        }
+        for &k in *rng.pick(&weak) {
+            pieces.push(k | o);
+        }
+        let side = if strong_white { 0 } else { 1 };
+        if let Some(p) = place(rng, &pieces, side) {
+            if !p.legal_moves().is_empty() {
+                return p;
+            }
+        }
+    }
+}
+
+/// Positions (found by `wsim findc17`, re-verified by the solver whenever they are used) with a
+/// forced mate in <= 3 plies, at least two first moves that keep a forced mate, one of them a pawn
+/// move or a capture (given as the second field).
+pub const IRREVERSIBLE_MATES: &[(&str, &str)] = &[
+    ("1K1k4/2N5/8/3rq3/8/8/8/8 b - - 0 1", "e5c7"),
+    ("1K1k4/7N/8/7q/8/8/1p6/8 b - - 0 1", "b2b1q"),
+    ("1K1k4/7Q/6p1/8/4p3/4R3/8/8 w - - 0 1", "e3e4"),
+    ("1K2R3/6Pk/8/p7/8/2p5/8/3R4 w - - 0 1", "g7g8q"),
+    ("1K2k3/6Q1/8/8/8/3p4/1R3p2/8 w - - 0 1", "b2f2"),
+    ("1K2k3/8/1R5p/p7/7Q/8/8/8 w - - 0 1", "h4h6"),
+    ("1K2k3/8/6P1/4N3/8/8/2Q5/8 w - - 0 1", "g6g7"),
+    ("1K2n3/5q2/7p/8/8/8/8/1kN5 b - - 0 1", "b1c1"),
+    ("1K3k2/R7/6P1/6R1/8/8/8/8 w - - 0 1", "g6g7"),
+    ("1K6/1P6/k5r1/1q6/8/6P1/8/8 b - - 0 1", "b5b7"),
+    ("1K6/2r5/3k4/2r2p2/8/8/8/8 b - - 0 1", "f5f4"),
+    ("1K6/3k1r2/8/8/6r1/8/2p5/8 b - - 0 1", "c2c1q"),
+    ("1K6/3r4/3r4/1k6/8/8/5p2/8 b - - 0 1", "f2f1q"),
+    ("1K6/3r4/8/q6P/8/5k2/8/8 b - - 0 1", "a5h5"),
+    ("1K6/4k3/8/8/8/3r4/1N6/1q6 b - - 0 1", "b1b2"),
+    ("1K6/4n3/1P6/8/1q6/8/p7/2k5 b - - 0 1", "a2a1q"),
+    ("1K6/4q3/8/8/8/8/1k4Nr/8 b - - 0 1", "h2g2"),
+    ("1K6/4r2q/2P5/2Pk4/8/8/8/8 b - - 0 1", "d5c6"),
+    ("1K6/5N1r/8/8/2k5/8/6q1/8 b - - 0 1", "h7f7"),
+    ("1K6/5r2/8/6N1/2k5/8/3q4/8 b - - 0 1", "d2g5"),
+    ("1K6/7q/6k1/8/8/8/5ppP/8 b - - 0 1", "f2f1q"),
+    ("1K6/7r/8/7P/8/5q2/8/7k b - - 0 1", "f3h5"),
+    ("1K6/8/1P2q3/8/8/8/5k2/2r5 b - - 0 1", "e6b6"),
+    ("1K6/8/2k5/7q/7n/8/p7/8 b - - 0 1", "a2a1q"),
+    ("1K6/8/2k5/8/1p2q3/8/1P6/8 b - - 0 1", "b4b3"),
+    ("1K6/8/3k3q/4r3/8/8/3P4/8 b - - 0 1", "h6d2"),
+    ("1K6/8/4P3/7k/2r5/6p1/8/6r1 b - - 0 1", "g3g2"),
+    ("1K6/8/4Pr2/2q1k3/8/8/8/8 b - - 0 1", "e5e6"),
+    ("1K6/8/4k3/8/2q5/8/1p6/8 b - - 0 1", "b2b1q"),
+    ("1K6/8/6Q1/8/8/7k/R7/n7 w - - 0 1", "a2a1"),
+    ("1K6/8/8/2k1p3/8/8/q5p1/8 b - - 0 1", "g2g1q"),
+    ("1K6/8/8/8/8/6r1/3p1r2/k7 b - - 0 1", "d2d1q"),
+    ("1K6/8/k2n2q1/8/8/P7/6p1/8 b - - 0 1", "g2g1q"),
+    ("1K6/8/k7/7q/2P5/8/p7/8 b - - 0 1", "a2a1q"),
+    ("1K6/p6r/8/2r5/4k3/8/8/8 b - - 0 1", "a7a6"),
+    ("1K6/rP6/1k6/5qP1/8/8/8/8 b - - 0 1", "a7b7"),
+    ("1Kn1R3/8/P7/8/8/8/6R1/k7 w - - 0 1", "b8c8"),
+    ("1N5r/6k1/5p2/8/8/8/K7/5r2 b - - 0 1", "h8b8"),
+    ("1N6/1R3P2/8/8/6p1/6P1/5K2/7k w - - 0 1", "f7f8q"),
+    ("1N6/5qp1/8/8/2k5/8/K4p2/8 b - - 0 1", "f2f1q"),
+    ("1N6/8/1p6/8/8/r6r/8/1K1k4 b - - 0 1", "b6b5"),
+    ("1N6/8/1r3r2/8/4p3/6k1/8/7K b - - 0 1", "e4e3"),
+    ("1N6/8/3Q4/P6k/5K2/8/8/8 w - - 0 1", "a5a6"),
+    ("1N6/8/4k3/5r2/5q2/8/8/7K b - - 0 1", "f4b8"),
+    ("1N6/8/6Q1/8/P4K2/8/8/7k w - - 0 1", "a4a5"),
+    ("1N6/8/6r1/8/7K/8/2p5/k2r4 b - - 0 1", "c2c1q"),
+    ("1Q2N3/7k/P7/8/1p5K/8/8/8 w - - 0 1", "b8b4"),
+    ("1Q5R/8/4Kp2/k7/8/7p/8/8 w - - 0 1", "e6f6"),
+    ("1Q6/2K2R2/8/8/8/8/1n6/7k w - - 0 1", "b8b2"),
+    ("1Q6/2K5/8/8/P7/8/k2N4/8 w - - 0 1", "a4a5"),
+    ("1Q6/3R4/k7/8/8/8/3p1K2/8 w - - 0 1", "d7d2"),
+    ("1Q6/5pR1/5K2/8/8/8/k7/8 w - - 0 1", "f6f7"),
+    ("1Q6/7P/8/8/8/K7/8/7k w - - 0 1", "h7h8q"),
+    ("1Q6/8/1R6/k7/6p1/8/3p4/2K5 w - - 0 1", "c1d2"),
+    ("1Q6/8/2R5/k5n1/7K/8/8/8 w - - 0 1", "h4g5"),
+    ("1Q6/8/8/8/P7/3K4/k7/1N6 w - - 0 1", "a4a5"),
+    ("1Q6/P7/2p5/4p3/8/k7/8/4K3 w - - 0 1", "a7a8q"),
+    ("1R1K4/8/8/8/8/8/2R4P/6k1 w - - 0 1", "h2h3"),
+    ("1R4R1/3P4/3K4/7k/p4p2/8/8/8 w - - 0 1", "d7d8q"),
+    ("1R5n/8/7P/8/8/8/6RK/4k3 w - - 0 1", "h6h7"),
+];
